@@ -586,7 +586,12 @@ def getslice(I, o, lo, hi, step, node):
         t = z3.SubString(o.t, start, ln) if o.kind == "str" else z3.Extract(o.t, start, ln)
         return Sym(z3.simplify(t), o.kind, o.elem)
     if isinstance(o, (list, tuple)):
-        raise OutsideSubset("symbolic slice bounds on a concrete list")
+        # concrete spine, symbolic bounds: decide the normalised bounds along the path
+        n = len(o)
+        start, stop = slice_bounds(I, lo, hi, z3.IntVal(n))
+        a = I.ctx.choose([start == i for i in range(n + 1)])
+        b = I.ctx.choose([stop == i for i in range(n + 1)])
+        return o[a:b]
     if isinstance(o, SObj) and isinstance(o.cls, ClassInfo):
         m = o.cls.find_method("__getitem__")
         if m is not None:
@@ -818,6 +823,8 @@ def getattr_(I, o, name, node=None):
                 return I.call_function(ga, o, [name], {})
             if "BaseException" in I.E.exc_class_chain(o.cls) and name == "args":
                 return ()
+        if not isinstance(o.cls, ClassInfo) and not o.lazy:
+            raise OutsideSubset(f"attribute {name} of modelled external object {o.cls} (line {getattr(node, 'lineno', '?')})")
         if o.lazy:
             v = I.fresh(f"{o.cls.name if isinstance(o.cls, ClassInfo) else o.cls}.{name}", "opaque", "Any")
             o.fields[name] = v
@@ -864,6 +871,9 @@ def getattr_(I, o, name, node=None):
             return I.E.external_values[f"{o.key}.{name}"]
         return External(f"{o.key}.{name}")
     if isinstance(o, Sym) and o.kind == "opaque":
+        hk = getattr(I.E, "opaque_attr_hooks", {}).get((o.elem, name))
+        if hk is not None:
+            return hk(I, o)
         decl = I.E.opaque_methods.get((o.elem, name))
         if decl is not None:
             return NativeFn(f"{o.elem}.{name}", lambda I2, args, kwargs, o=o, name=name: call_opaque_method(I2, o, name, args))
@@ -986,6 +996,11 @@ def to_str(I, x, node=None):
         return str(x)
     if isinstance(x, Sym) and x.kind == "int":
         return Sym(z3.If(x.t >= 0, z3.IntToStr(x.t), z3.Concat(z3.StringVal("-"), z3.IntToStr(-x.t))), "str")
+    if isinstance(x, SObj) and "str" in x.ghost:
+        return x.ghost["str"]
+    if isinstance(x, SObj) and "addr" in x.ghost:
+        from contracts.c18 import IPStr
+        return IPStr(x.ghost["addr"])
     if isinstance(x, SObj) and isinstance(x.cls, ClassInfo):
         m = x.cls.find_method("__str__")
         if m is not None:
